@@ -218,6 +218,22 @@ fn check_mo_pair(a: &[f64], b: &[f64]) -> Option<(String, String)> {
             if yx != xy.map(|o| o.reverse()) {
                 return Some((sig("antisymmetry"), format!("{:?} vs {:?}: {:?} / {:?}", a, b, xy, yx)));
             }
+            // copies (fresh, and written over an existing vector of another length) hold exactly the source's values
+            let bitsv = |v: &[f64]| -> Vec<u64> { v.iter().map(|f| f.to_bits()).collect() };
+            match catch(|| {
+                let mut z = x.clone();
+                z.clone_from(&y);
+                let mut zs = vec![x.clone(), x.clone()];
+                zs.clone_from(&vec![y.clone()]);
+                (bitsv(x.clone().value()), bitsv(z.value()), zs.len(), bitsv(zs[0].value()))
+            }) {
+                Err(p) => return Some((sig("copy-panic"), format!("{:?} vs {:?}: {}", a, b, p))),
+                Ok((c, z, n, z0)) => {
+                    if c != bitsv(a) || z != bitsv(b) || n != 1 || z0 != bitsv(b) {
+                        return Some((sig("copy"), format!("clone of {:?} holds {:?}; {:?} overwritten with clone_from({:?}) holds {:?}; a vector of two overwritten with clone_from(vec![{:?}]) holds {} element(s), the first {:?}", a, c.iter().map(|b| f64::from_bits(*b)).collect::<Vec<_>>(), a, b, z.iter().map(|b| f64::from_bits(*b)).collect::<Vec<_>>(), b, n, z0.iter().map(|b| f64::from_bits(*b)).collect::<Vec<_>>())));
+                    }
+                }
+            }
             None
         }
     }
